@@ -6,7 +6,7 @@ MODULE = "workflows.runtime.types.internal_state"
 
 @contract("workflows.runtime.types.internal_state.InternalStepWorkerState._deepcopy")
 class WorkerStateDeepcopy:
-    properties = ["C01", "C09", "C11"]
+    properties = ["C01", "C09", "C10", "C11", "C14"]
     raises = []
 
     def ensures_equal(old, self, result):
@@ -19,7 +19,7 @@ class WorkerStateDeepcopy:
 
 @contract("workflows.runtime.types.internal_state.InProgressState._deepcopy")
 class InProgressDeepcopy:
-    properties = ["C09", "C11"]
+    properties = ["C09", "C10", "C11", "C14"]
     raises = []
 
     def ensures_equal(old, self, result):
@@ -32,7 +32,7 @@ class InProgressDeepcopy:
 
 @contract("workflows.runtime.types.results.StepWorkerState._deepcopy")
 class StepWorkerStateDeepcopy:
-    properties = ["C09", "C11"]
+    properties = ["C09", "C10", "C11", "C14"]
     module = "workflows.runtime.types.results"
     raises = []
 
